@@ -700,7 +700,14 @@ class DateTime(datetime.datetime, Date):
         """
         if isinstance(delta, pendulum.Duration):
             return self.subtract(
-                years=delta.years, months=delta.months, seconds=delta._total
+                years=delta.years,
+                months=delta.months,
+                weeks=delta.weeks,
+                days=delta.remaining_days,
+                hours=delta.hours,
+                minutes=delta.minutes,
+                seconds=delta.remaining_seconds,
+                microseconds=delta.microseconds,
             )
 
         return self.subtract(seconds=delta.total_seconds())
